@@ -43,7 +43,7 @@ type ChangelogEntry struct {
 	When      time.Time
 }
 
-const whenLayout = time.RFC1123Z // "Mon, 02 Jan 2006 15:04:05 -0700"
+const whenLayout = "Mon, 2 Jan 2006 15:04:05 -0700" // RFC1123Z with a one- or two-digit day
 
 type ChangelogEntries []ChangelogEntry
 
@@ -150,7 +150,9 @@ func ParseOne(reader *bufio.Reader) (*ChangelogEntry, error) {
 	_, signoff = partition(signoff, "--")  /* Get rid of the leading " -- " */
 	whom, when := partition(signoff, "  ") /* Split on the "  " */
 	changeLog.ChangedBy = trim(whom)
-	changeLog.When, err = time.Parse(whenLayout, trim(when))
+	/* deb-changelog(5): the day of the month has one or two digits; old
+	 * entries pad it with a blank ("Sun,  3 Dec 2006") */
+	changeLog.When, err = time.Parse(whenLayout, strings.Join(strings.Fields(when), " "))
 	if err != nil {
 		return nil, fmt.Errorf("Failed parsing When %q: %v", when, err)
 	}
